@@ -13,7 +13,7 @@ import os
 import sys
 
 sys.path.insert(0, os.path.dirname(os.path.dirname(os.path.abspath(__file__))))
-from vlib import env, harness, gen_systems, gen_groups  # noqa: E402
+from vlib import env, harness, gen_systems, gen_groups, monitors  # noqa: E402
 import numpy as np  # noqa: E402
 
 PROP = "C20"
@@ -77,7 +77,10 @@ def case(ctx, rng, idx, state):
     system = gen_systems.make_system(lattice, iR, mats, cred + noise, spinor=soc)
     wit = dict(structure=sname, proj=proj, soc=soc, noisy_start=bool(np.abs(noise).max() > 0), magnetic=mag is not None, num_wann=nw, keys=keys, nR_before=len(iR), params=struct.get("params"))
     kw = dict(proj=proj, positions=pos, atom_name=atom_names, soc=soc, magmom=None if mag is None else np.array(mag), reorder_back=True)
+    if rng.random() < 0.5:
+        monitors.warm_caches(system)   # a system that has been used before it is symmetrised
     symmetrizer = system.symmetrize(**kw)
+    monitors.assert_no_stale_caches(ctx, system, "symmetrize", wit)
     sg_ops = None
     try:
         sg = symmetrizer.spacegroup if symmetrizer is not None else None
